@@ -7,7 +7,7 @@ CX = ["-fconstexpr-ops-limit=4000000000", "-fconstexpr-loop-limit=100000000", "-
 # source -> (parts, parts that also run in the O0 flavour in the quick tier)
 UNITS = [
     ("harness/c13_cmath.cpp", [1, 2, 3], [1, 2, 3]),
-    ("harness/c13_bits.cpp", [1, 2, 3, 4, 5, 6, 7], [1]),
+    ("harness/c13_bits.cpp", [1, 2, 3, 4, 5, 6, 7], [1]),  # part 8 is thorough-only, added below
     ("harness/c13_cstr.cpp", [1, 2], [1, 2]),
     ("harness/c13_kernels.cpp", [1, 2, 3, 4, 5, 6], []),
 ]
@@ -19,7 +19,7 @@ for src, parts, o0 in UNITS:
         if p in o0:
             runs.append({"src": src, "flavour": "O0", "std": "c++20", "defs": ["-DMC_PART=%d" % p], "cxxflags": CX, "tiers": ["quick"]})
 for src, parts, _ in UNITS:
-    for p in parts:
+    for p in parts + ([8] if src.endswith("c13_bits.cpp") else []):
         for fl in ("O2", "O0"):
             runs.append({"src": src, "flavour": fl, "std": "c++20", "defs": ["-DMC_PART=%d" % p, "-DC13_THOROUGH=1"], "cxxflags": CX,
                          "tiers": ["thorough"]})
